@@ -64,7 +64,8 @@ def tree_copy(lru_cached_parsing_func: Callable[[str], Tree]):
         tree_result: Tree = lru_cached_parsing_func(*args, **kwargs)
         cache_size_after_parsing = lru_cached_parsing_func.cache_info().currsize
         if cache_size_after_parsing == cache_size_before_parsing:
-            parsing_logger.log(_CACHE_LOG_LEVEL, "The parsed tree for '%s' has been loaded from the cache", args[0])
+            expression = args[0] if args else next(iter(kwargs.values()), None)  # the argument may be given by keyword
+            parsing_logger.log(_CACHE_LOG_LEVEL, "The parsed tree for '%s' has been loaded from the cache", expression)
         return copy.deepcopy(tree_result)
 
     return decorated
